@@ -538,3 +538,21 @@ theorem rewritePack_keepMarked {pr : Prune} {p : PackSt} {t : Int} (hm : p.statu
   simp only [h1, h2, Bool.false_eq_true, if_false]
 
 end Rustic.Interleave
+
+namespace Rustic.Repo
+/-! ### protocol model: a prune's index rewrite (used by Props/C10) -/
+
+/-- removing index files other than `i` keeps `i` listed and does not touch the pack files -/
+theorem removeIndexes_keep : ∀ (rm : List Nat) (r : Repo) (i : IndexFile), i ∈ r.indexes → i.id ∉ rm →
+    i ∈ (applyAll r (rm.map .removeIndex)).indexes ∧ (applyAll r (rm.map .removeIndex)).packs = r.packs
+  | [], r, i, hi, _ => ⟨hi, rfl⟩
+  | id :: rm, r, i, hi, hn => by
+    simp only [List.map_cons, applyAll, List.foldl_cons]
+    have hne : i.id ≠ id := fun e => hn (e ▸ List.mem_cons_self ..)
+    have hi' : i ∈ (apply r (.removeIndex id)).indexes := by
+      simp only [apply, List.mem_filter, bne_iff_ne, ne_eq]
+      exact ⟨hi, hne⟩
+    have := removeIndexes_keep rm (apply r (.removeIndex id)) i hi' (fun h => hn (List.mem_cons_of_mem _ h))
+    exact ⟨this.1, this.2.trans rfl⟩
+
+end Rustic.Repo
